@@ -28,8 +28,10 @@ def make_event(how, name):
         return Event(signal=signals[name])
     if how == "literal":
         return Event(signal=name)
-    if how == "built":                     # the name was assembled at run time (not the interned literal)
-        return Event(signal="".join(list(name)))
+    if how == "built":                     # the name was assembled at run time: an equal string, not the same object
+        built = "".join(list(name))        # (signal names here have two letters: CPython shares one-letter strings)
+        assert built == name and built is not name
+        return Event(signal=built)
     if how == "loads":
         return Event.loads(Event.dumps(Event(signal=name)))
     raise AssertionError(how)
@@ -84,9 +86,9 @@ class C11(timed.TimedHarness):
         return out
 
 
-SRC3 = [{"sig": "A", "period": 0.5, "times": 0, "deferred": True, "kind": "fifo"},
-        {"sig": "A", "period": 1.0, "times": 2, "deferred": False, "kind": "lifo"},
-        {"sig": "B", "period": 0.5, "times": 3, "deferred": True, "kind": "fifo"}]
+SRC3 = [{"sig": "AA", "period": 0.5, "times": 0, "deferred": True, "kind": "fifo"},
+        {"sig": "AA", "period": 1.0, "times": 2, "deferred": False, "kind": "lifo"},
+        {"sig": "BB", "period": 0.5, "times": 3, "deferred": True, "kind": "fifo"}]
 
 
 def params(tier):
@@ -99,42 +101,42 @@ def params(tier):
             ps.append({"sources": SRC3, "cancel": {"by": "id", "how": how, "target": target},
                        "bound": 1 if (how == "same" or not q) else 0, "time_horizon": 0.5 if q else 1.0})
     for how in ("number", "literal", "built", "loads"):
-        for name in ("A", "B"):
+        for name in ("AA", "BB"):
             ps.append({"sources": SRC3, "cancel": {"by": "name", "how": how, "name": name},
                        "bound": 1 if (how == "number" or not q) else 0, "time_horizon": 0.5 if q else 1.0})
     # a finite source with the same signal has already finished when the long-lived one is cancelled
-    fin = [{"sig": "A", "period": 0.5, "times": 0, "deferred": True, "kind": "fifo"},
-           {"sig": "A", "period": 0.25, "times": 1, "deferred": True, "kind": "fifo"},
-           {"sig": "B", "period": 0.5, "times": 0, "deferred": True, "kind": "lifo"}]
+    fin = [{"sig": "AA", "period": 0.5, "times": 0, "deferred": True, "kind": "fifo"},
+           {"sig": "AA", "period": 0.25, "times": 1, "deferred": True, "kind": "fifo"},
+           {"sig": "BB", "period": 0.5, "times": 0, "deferred": True, "kind": "lifo"}]
     ps.append({"sources": fin, "cancel": {"by": "id", "how": "same", "target": 0, "at": 0.6}, "bound": 0 if q else 1, "time_horizon": 1.5})
-    ps.append({"sources": fin, "cancel": {"by": "name", "how": "number", "name": "A", "at": 0.6}, "bound": 0 if q else 1, "time_horizon": 1.5})
+    ps.append({"sources": fin, "cancel": {"by": "name", "how": "number", "name": "AA", "at": 0.6}, "bound": 0 if q else 1, "time_horizon": 1.5})
     ps.append({"sources": list(reversed(fin)), "cancel": {"by": "id", "how": "copy", "target": 2, "at": 0.6}, "bound": 0, "time_horizon": 1.5})
     # the tracked list (capacity 3) is full, two of its entries are one-shots that have fired: one more timed post is then
     # refused (miros keeps finished sources listed) - and whatever happens to it, the live source must stay cancellable
-    full = [{"sig": "A", "period": 0.5, "times": 0, "deferred": True, "kind": "fifo"},
-            {"sig": "B", "period": 0.25, "times": 1, "deferred": True, "kind": "fifo"},
-            {"sig": "C", "period": 0.25, "times": 1, "deferred": True, "kind": "lifo"},
-            {"sig": "D", "period": 0.5, "times": 0, "deferred": True, "kind": "fifo", "at": 0.6}]
+    full = [{"sig": "AA", "period": 0.5, "times": 0, "deferred": True, "kind": "fifo"},
+            {"sig": "BB", "period": 0.25, "times": 1, "deferred": True, "kind": "fifo"},
+            {"sig": "CC", "period": 0.25, "times": 1, "deferred": True, "kind": "lifo"},
+            {"sig": "DD", "period": 0.5, "times": 0, "deferred": True, "kind": "fifo", "at": 0.6}]
     ps.append({"sources": full, "sub_qsize": 3, "cancel": {"by": "id", "how": "copy", "target": 0, "at": 0.2}, "bound": 0, "time_horizon": 2.0})
-    ps.append({"sources": full, "sub_qsize": 3, "cancel": {"by": "name", "how": "literal", "name": "A", "at": 0.2}, "bound": 0 if q else 1, "time_horizon": 2.0})
+    ps.append({"sources": full, "sub_qsize": 3, "cancel": {"by": "name", "how": "literal", "name": "AA", "at": 0.2}, "bound": 0 if q else 1, "time_horizon": 2.0})
     # cancelling something that is not there cancels nothing
     for how in ("unknown", "none"):
         ps.append({"sources": SRC3, "cancel": {"by": "id", "how": how, "target": 0}, "bound": 0 if q else 1, "time_horizon": 0.5 if q else 1.0})
-    ps.append({"sources": SRC3, "cancel": {"by": "name", "how": "literal", "name": "C"}, "bound": 0 if q else 1, "time_horizon": 0.5 if q else 1.0})
+    ps.append({"sources": SRC3, "cancel": {"by": "name", "how": "literal", "name": "CC"}, "bound": 0 if q else 1, "time_horizon": 0.5 if q else 1.0})
     # the race between the cancelling call and a timer that is about to post
-    two = [{"sig": "A", "period": 0.5, "times": 0, "deferred": True, "kind": "fifo"},
-           {"sig": "B", "period": 0.5, "times": 2, "deferred": False, "kind": "fifo"}]
+    two = [{"sig": "AA", "period": 0.5, "times": 0, "deferred": True, "kind": "fifo"},
+           {"sig": "BB", "period": 0.5, "times": 2, "deferred": False, "kind": "fifo"}]
     ps.append({"sources": two[:1], "cancel": {"by": "id", "how": "same", "target": 0, "at": 0.5}, "bound": 2, "time_horizon": 1.5})
-    ps.append({"sources": two[:1], "cancel": {"by": "name", "how": "number", "name": "A", "at": 0.5}, "bound": 2, "time_horizon": 1.5})
+    ps.append({"sources": two[:1], "cancel": {"by": "name", "how": "number", "name": "AA", "at": 0.5}, "bound": 2, "time_horizon": 1.5})
     ps.append({"sources": two, "cancel": {"by": "id", "how": "same", "target": 1}, "bound": 2, "time_horizon": 1.0})
     # two threads start a timed source at the same moment when one place is left in the tracked list (capacity 2): whichever
     # of them is accepted, the source tracked before must stay cancellable
     for by in ("id", "name"):
         ps.append({"sources": two, "sub_qsize": 2, "racer": {"before": 1, "op": "post_timed"}, "racer_codes": True,
-                   "cancel": dict({"by": "id", "how": "same", "target": 0} if by == "id" else {"by": "name", "how": "literal", "name": "A"}, at=0.25),
+                   "cancel": dict({"by": "id", "how": "same", "target": 0} if by == "id" else {"by": "name", "how": "literal", "name": "AA"}, at=0.25),
                    "bound": 1 if q else 2, "time_horizon": 1.0})
     if not q:       # heavy: explored under a wall-clock budget, reported separately (coverage.heavy_extra)
-        ps.append({"sources": two, "cancel": {"by": "name", "how": "literal", "name": "A", "at": 1.0}, "bound": 2, "time_horizon": 2.0, "heavy": True})
+        ps.append({"sources": two, "cancel": {"by": "name", "how": "literal", "name": "AA", "at": 1.0}, "bound": 2, "time_horizon": 2.0, "heavy": True})
         ps.append({"sources": SRC3, "cancel": {"by": "id", "how": "same", "target": 0, "at": 0.5}, "bound": 2, "time_horizon": 1.0, "heavy": True})
     return ps
 
